@@ -52,7 +52,9 @@ LEVEL_NOTE = ("Integer coordinates, or exact similarity images of them (exactly 
               "of collinear segments (callers treat it as measure zero).")
 DESIGN_REF = "DESIGN.md section 4, C28"
 ASSUMPTIONS = [
-    "integer coordinates passed as float arrays (as the callers do)",
+    "integer coordinates passed as float64 arrays (as the callers do) or, class int-dtype-inputs, as int64 / int32 arrays, "
+    "python lists (segments_2d only) or mixed int / float arrays; float32 is not generated (segments_3d would compute in "
+    "single precision)",
     "both segments have distinct end points",
     "what counts as a single point vs an overlapping stretch is only asserted for overlaps that are exactly zero or at "
     "least 1e-5 of the longer segment (1000 x the default tol)",
@@ -82,6 +84,7 @@ REQUIRED = {
     "scaled-up": 0.01,                # 17 % / 5 %
     "far-offset": 0.01,               # 23 % / 5 %
     "long-segment-short-overlap": 0.01,  # 6 % / 9 %
+    "int-dtype-inputs": 0.1,          # 47 % / 29 %
 }
 ENUMERATE_TIERS = ("thorough",)
 _enum = builtins.enumerate  # the contract's `enumerate` below shadows the builtin in this module
@@ -255,9 +258,14 @@ TF_3D = [(sc, m) for sc in ((1, 1), (10, 1), (1000, 1), (10000, 1)) for m in (0,
          if not (sc == (1, 1) and m == 0) and 45 * sc[0] + m <= 1000000]
 
 
-def build_tf(gen, dim, R, n, tf):
+DTYPES = [None, None, "int64", "int32", "list", "mixed"]
+
+
+def build_tf(gen, dim, R, n, tf, dtype=None):
     s = build(gen, dim, R, n)
     if tf is None or gen == "long-overlap":
+        if dtype is not None:
+            s["dtype"] = dtype  # integer coordinates: how they are handed over (see _as_input)
         return s
     table = TF_2D if dim == 2 else TF_3D
     (num, den), m = table[tf % len(table)]
@@ -281,7 +289,7 @@ def build_tf(gen, dim, R, n, tf):
 
 def strategy(tier):
     return st.builds(build_tf, st.sampled_from(GENS), st.sampled_from([2, 3]), st.sampled_from([2, 3, 4]), big_int(128),
-                     st.one_of(st.none(), st.none(), st.integers(0, 10 ** 6)))
+                     st.one_of(st.none(), st.none(), st.integers(0, 10 ** 6)), st.sampled_from(DTYPES))
 
 
 def _lattice_segments(dim, lo, hi):
@@ -324,6 +332,8 @@ def enumerate(tier, shard, nshards):  # noqa: A001 - name fixed by the contract
                 continue
             for s2 in segs[i:]:
                 spec = {"dim": dim, "s1": [s1[0], s1[1]], "s2": [s2[0], s2[1]], "gen": "enum"}
+                if tf is None and (i + len(s2[0]) + s2[0][0] + s2[1][1]) % 3 == 0:
+                    spec["dtype"] = ("int64", "int32", "list", "mixed")[(i + s2[1][0]) % 4]
                 yield spec if tf is None else _apply_tf(spec, dim, *tf)
 
     yield from boxes(2, -2, 2)
@@ -357,7 +367,30 @@ def enumerate(tier, shard, nshards):  # noqa: A001 - name fixed by the contract
     yield from boxes(3, -1, 2)
 
 
+def warmup():
+    """Import porepy (and run one case) before the clock starts: on a loaded machine the import alone can exceed the
+    time budget of the quick tier."""
+    try:
+        check({"dim": 2, "s1": [[0, 0], [1, 1]], "s2": [[0, 1], [1, 0]], "gen": "cross"})
+    except Exception:  # noqa: BLE001 - failures are found and reported by the search
+        pass
+
+
 # ----------------------------------------------------------------------------- check
+def _as_input(p, kind, dim, which):
+    """How a caller with lattice data hands a point over.  None: float64 array (the default class); int64 / int32:
+    integer arrays; list: a plain python list (segments_2d converts with np.asarray and uses lists in its docstring
+    examples; segments_3d documents arrays and does arithmetic on its arguments, so it gets int64 arrays instead);
+    mixed: the first segment as int64, the second as float64."""
+    if kind is None or not all(isinstance(x, int) for x in p):
+        return np.array(p, dtype=float)
+    if kind == "list":
+        return list(p) if dim == 2 else np.array(p, dtype=np.int64)
+    if kind == "mixed":
+        return np.array(p, dtype=np.int64 if which == 0 else float)
+    return np.array(p, dtype=np.int64 if kind == "int64" else np.int32)
+
+
 def _close(col, P, tolv):
     return all(abs(float(x) - float(y)) <= tolv for x, y in zip(col, P))
 
@@ -417,7 +450,7 @@ def check(s):
                 p2 = (D, C) if r2 else (C, D)
                 if order:
                     p1, p2 = p2, p1
-                args = [np.array(p, dtype=float) for p in (p1[0], p1[1], p2[0], p2[1])]
+                args = [_as_input(p, s.get("dtype"), dim, w) for p, w in ((p1[0], 0), (p1[1], 0), (p2[0], 1), (p2[1], 1))]
                 res = f(*args)
                 _compare(res, exact, dim, scale, f"segments_{dim}d({p1[0]},{p1[1]},{p2[0]},{p2[1]})")
 
@@ -435,6 +468,9 @@ def check(s):
             labels.append("far-offset")
     elif s["gen"] != "long-overlap":
         labels.append("lattice")
+    if s.get("dtype") is not None and all(isinstance(x, int) for p in (A, B, C, D) for x in p):
+        labels.append("int-dtype-inputs")
+        labels.append("dtype-" + s["dtype"])
     if s["gen"] == "long-overlap":
         labels.append("long-segment")
         if exact[0] == "segment":
